@@ -140,7 +140,7 @@ func (r *Runner) Prop(p *PropSpec) func(*rapid.T) {
 		ops := p.Body
 		if p.Keyed {
 			k := rapid.Uint64().Draw(t, "key")
-			r.rec.Emit("draw", F{"inv": in.id, "label": "key", "val": fmtVal(k), "key": W(k)})
+			r.rec.Emit("draw", F{"inv": in.id, "label": "key", "val": fmtVal(k), "dval": fmtVal(k), "key": W(k)})
 			var ok bool
 			if ops, ok = r.keyed[k]; !ok {
 				ops = p.Default
@@ -226,7 +226,7 @@ func (in *inv) step(op *Op) {
 		if op.Var != "" {
 			in.vars[op.Var] = v
 		}
-		f := F{"inv": in.id, "label": op.Label, "val": fmtVal(v), "gen": b.Desc}
+		f := F{"inv": in.id, "label": op.Label, "val": fmtVal(v), "dval": deepVal(v), "gen": b.Desc}
 		if r.rec.Wants("contract") {
 			c := b.Check(v)
 			c["inv"], c["gen"] = in.id, b.Desc
@@ -366,7 +366,7 @@ func (in *inv) step(op *Op) {
 		for name, body := range op.Actions {
 			name, body := name, body
 			actions[name] = func(t2 *rapid.T) {
-				r.rec.Emit("draw", F{"inv": in.id, "label": "action", "val": fmtVal(name), "gen": "SampledFrom(actions)"}) // Repeat's own draw of the action
+				r.rec.Emit("draw", F{"inv": in.id, "label": "action", "val": fmtVal(name), "dval": fmtVal(name), "gen": "SampledFrom(actions)"}) // Repeat's own draw of the action
 				r.rec.Emit("sm.action.begin", F{"inv": in.id, "name": name})
 				done := false
 				defer func() { r.rec.Emit("sm.action.end", F{"inv": in.id, "name": name, "ret": done, "last": in.last}) }()
